@@ -71,7 +71,7 @@ class _Groups(dict):
 
 GROUPS = _Groups(GROUPS)
 BUNDLES = ["B:SO2", "B:R3", "B:SE3", "B:SO2,R3", "B:R3,SO2", "B:SE2,SO3,R2", "B:SO3,SE2,R5,SO3",
-           "B:SE_2_3,R1,SE2", "B:R1,SE3,SO2,SE_2_3,SE2", "B:SE3,SE3", "B:R2,SO3"]
+           "B:SE_2_3,R1,SE2", "B:R1,SE3,SO2,SE_2_3,SE2", "B:SE3,SE3", "B:R2,SO3", "B:R1,SGal3,SO2"]
 
 
 def hex_of(x):
